@@ -349,6 +349,10 @@ fn snapshot_ctxs(ctxs: &BTreeMap<usize, CelContext>, universe: &[String]) -> BTr
         let mut m = BTreeMap::new();
         for n in universe {
             if let Some(p) = c.get_program(n) {
+                // the inspection calls of the API ("inspect details" in C11's alphabet) are made
+                // after every operation: they must not change anything either
+                let _ = (p.params().len(), p.ast().is_some(), p.details().params().len(), p.bytecode().len());
+                let _ = c.program_details(n).map(|d| (d.params().len(), d.source().map(|s| s.len())));
                 m.insert(n.clone(), (p.source().unwrap_or("").to_string(), fnv(p.dumps_bc().as_bytes())));
             }
         }
